@@ -152,6 +152,14 @@ def unhexStr (s : String) : String :=
   | some t => t
   | none => ""
 
+/-- How `encoding/json` (go1.23 `foldName`) matches an object key against a field name: by
+    simple Unicode case folding.  Besides the ASCII letters (handled by `asciiLower` in
+    `unmarshalMember`) only two runes fold to an ASCII letter: U+017F LATIN SMALL LETTER LONG S
+    (to `s`) and U+212A KELVIN SIGN (to `k`).  The keys of a `JDoc` are the keys after this
+    replacement; it is part of the rendering of the standard library's decoder. -/
+def foldKey (s : String) : String :=
+  s.map fun c => if c = Char.ofNat 0x17F then 's' else if c = Char.ofNat 0x212A then 'k' else c
+
 def parseField (s : String) : JField :=
   match s.toList with
   | 'n' :: _ => .null | 't' :: _ => .bool true | 'f' :: _ => .bool false
@@ -171,7 +179,7 @@ def parseDoc (s : String) : Option JDoc :=
     let body := (s.drop 2).toString
     some (.obj ((body.splitOn ";").filterMap fun kv =>
       match kv.splitOn "=" with
-      | [k, v] => some (unhexStr k, parseField v)
+      | [k, v] => some (foldKey (unhexStr k), parseField v)
       | _ => none))
   else none
 
